@@ -172,7 +172,7 @@ func genSetter(r *rand.Rand) setterCall {
 		case 1:
 			return setterCall{name: `SetFieldSeparator("")`, class: "fieldsep", tog: true, apply: func() { mxj.SetFieldSeparator("") }, model: func(s optState) { s["fieldSep"] = ":" }}
 		default:
-			p := []string{"|", ";", "::", ":", "."}[r.Intn(5)]
+			p := []string{"|", ";", "::", ":", ".", " ", "\t", "\u00a0", "\u2028"}[r.Intn(9)]
 			return setterCall{name: fmt.Sprintf("SetFieldSeparator(%q)", p), class: "fieldsep", expl: true, apply: func() { mxj.SetFieldSeparator(p) }, model: func(s optState) { s["fieldSep"] = p }}
 		}
 	case 20:
